@@ -1190,11 +1190,15 @@ func (p *kzPkg) translate(name string) string {
 }
 
 func runKzgOpen() {
-	for _, c := range groupCurves {
+	for ci, c := range groupCurves {
 		ns := "KzgOpen_" + strings.ReplaceAll(c, "-", "_")
 		outName := "Imp/" + ns + ".lean"
-		out := filepath.Join(outDir, outName)
-		dieHook = func() { os.Remove(out) }
+		// a failed translation must not leave a previous run's file behind: neither of this package nor of the ones not reached yet
+		dieHook = func() {
+			for _, d := range groupCurves[ci:] {
+				os.Remove(filepath.Join(outDir, "Imp/KzgOpen_"+strings.ReplaceAll(d, "-", "_")+".lean"))
+			}
+		}
 		p := loadKzg(c)
 		var fns strings.Builder
 		for _, fn := range kzgOpenFuncs {
